@@ -51,7 +51,24 @@ def cfg_space(tier, again):
 
 
 def check_accessors(chk, cfg, real, exp_cbs, key):
-    """Everything the evaluators expose vs the specification's records."""
+    """Everything the evaluators expose vs the specification's records.  An accessor that raises on a record the
+    evaluator holds is a finding about the accessor, not a failure of this harness."""
+    try:
+        _check_accessors(chk, cfg, real, exp_cbs, key)
+    except common.MachineryError:
+        raise
+    except Exception as ex:       # noqa: BLE001
+        import traceback
+        tb = traceback.extract_tb(ex.__traceback__)
+        in_lib = [f for f in tb if os.sep + "qucumber" + os.sep in f.filename]
+        if not in_lib:
+            raise
+        chk.violation("%s:accessor:raised:%s" % (key, type(ex).__name__),
+                      dict(cfg=cfg, raised=repr(ex), where="%s:%d %s" % (os.path.basename(in_lib[-1].filename), in_lib[-1].lineno, in_lib[-1].name),
+                           harness_line=next((f.lineno for f in reversed(tb) if f.filename.endswith("check_c17.py")), None)))
+
+
+def _check_accessors(chk, cfg, real, exp_cbs, key):
     for i, d in enumerate(cfg["cbs"]):
         o = real["objs"][i]
         exp = exp_cbs[i]
